@@ -40,7 +40,12 @@ Independent oracles (no use of the model, no use of the real uptodate objects), 
     file_dep and no evaluated item; an item that is false by definition: False / callable False / failing command /
     result_dep on a provider whose record holds no result; a missing target) or a provider of it was executed in the first run
     AFTER the task's own last success in that run (lazy getargs: the consumer was checked before) or again in the repeated run
-    before the task was checked (a chain of such consumers settles one level per run): `c04-repeat-run-reexecuted`.
+    before the task was checked (a chain of such consumers settles one level per run), or the task was not reached by the first run
+    at all (a setup-task of a lazily rebuilt consumer): `c04-repeat-run-reexecuted`.
+
+Sub-family `group` of the family getargs (this file, run_grp / explore_gi; item model: coq/Model/GroupRes.v): the source of result_dep /
+getargs is a GROUP task that also depends on a plain task which is not one of its sub-tasks; "the result of the group" is the dict of its
+SUB-TASKS' results (doc/uptodate.rst) -- see the comment above GRP_CODE for operations and the three oracles.
 
 Family `calcdep` (this file, second half; model: coq/Model/CalcDep.v): dependencies a task gets from the values of other tasks
 (`calc_dep`) -- see the comment above C() for operations, encoding and the three oracles.
@@ -370,6 +375,9 @@ def run_g(ctx, backend, h, out):
                         if never_uptodate(w, defs, sh, t):
                             out.count('g-repeat-exec:never-up-to-date')
                             continue
+                        if t not in dict(prev[3]):       # not reached by the first run (a second provider brought in as a setup-task of a
+                            out.count('g-repeat-exec:not-reached-by-the-first-run')      # lazily rebuilt consumer): judged by the shadow only
+                            continue
                         mine = prev[4].get(t, 0)
                         if any(prev[4].get(p, 0) > mine for p in res_deps(defs[t])):
                             out.count('g-repeat-exec:provider-ran-after-consumer')
@@ -611,6 +619,681 @@ def shrink_g(ctx, out):
         case['run_in_unshrunk_history'] = case.pop('run', None)
         case['history'] = small
         case['history_coq'] = g_coq(small)
+
+
+# ------------------------------------------------------------------ sub-family `group` of the family getargs
+# A consumer that looks at the result of a GROUP task: `uptodate=[result_dep('G')]` and / or `getargs` from 'G' (one key of every
+# sub-task, or the whole dict of every sub-task).  doc/uptodate.rst: "result_dep also supports group-tasks. In this case it will
+# check that the result of all subtasks did not change. And also the existing sub-tasks are the same" -- the result of a group is
+# the dict {sub-task: its saved result} over its SUB-TASKS; a task_dep of the group that is not one of its sub-tasks (a group-level
+# `task_dep: ['X']`, an implicit one through a file_dep on a target of X or through a group-level result_dep('X')) is not part of it.
+# Real dodo sources through DoitMain in-process, as run_g: creators task_X (plain task, own file_dep 0), task_G (a generator: the
+# group-level dict with basename / name None yielded before or after the sub-tasks G:a, G:b, G:c -- or not at all) and task_C (the
+# consumer), at source lines in the order of spec['order'].  Operations:
+#     ('SetChecker', ck) ('Write', f, c) ('Touch', f)      files: 0 = file_dep of X, 1 / 2 = file deps of the sub-tasks, 3 = file_dep of C,
+#                                                          4 = target of X and file_dep of the group-level dict (link 'target')
+#     ('Grp', spec)      the dodo file: spec = dict(x = S(..), subs = [(name, S(..))..] in yield order, link = how G depends on X
+#                        ('task_dep' | 'target' | 'result_dep' | 'none' = no group-level dict), group_first, order = creators,
+#                        consumer = dict(file_dep, uptodate = items, among them ('result_dep', 'G') / ('result_dep', 'X'),
+#                                        getargs = [(source, key | None)], result))
+#     ('Run', [names], plain, par, [failing names])   ('Forget', name)
+# No run-level Coq model of these histories (Getargs.v has single-task sources only); the item itself -- result_dep._result_group,
+# __call__ and the value saver -- is modelled by coq/Model/GroupRes.v and compared on generated DBs (explore_gi below).  Oracles,
+# on the reporter's event order, no use of the DB or of the real uptodate objects:
+#   * shadow  : as GShadow, where what a task saw of a group source is the dict of the results its SUB-TASKS' records held; if every
+#               condition of C04 holds at reporter.get_status(t) and the runner executes t: `c04-unchanged-rerun-getargs`;
+#   * repeat  : as for run_g (`c04-repeat-run-reexecuted`); the providers behind a group source are its sub-tasks;
+#   * changed : a task skipped as up-to-date although a result_dep item of it is false by that reading (a sub-task's record holds another
+#               result than the one seen, the set of sub-tasks differs): `c04-group-result-changed-not-rebuilt`.
+GRP_CODE = {'X': 0, 'G': 1, 'C': 2, 'G:a': 10, 'G:b': 11, 'G:c': 12}
+GRP_LINKS = ('task_dep', 'target', 'result_dep', 'none')
+
+
+def S(fd=(), result=None, values=(), utd=(), getargs=()):
+    return dict(file_dep=list(fd), result=result, values=[tuple(x) for x in values], uptodate=[tuple(u) for u in utd],
+                getargs=[tuple(x) for x in getargs])
+
+
+def grp_spec(x, subs, consumer, link='task_dep', group_first=True, order=('X', 'G', 'C')):
+    return dict(x=S(x['file_dep'], x['result'], x['values'], x['uptodate']),
+                subs=[(n, S(d['file_dep'], d['result'], d['values'], d['uptodate'])) for n, d in subs],
+                consumer=S(consumer['file_dep'], consumer['result'], consumer['values'], consumer['uptodate'], consumer['getargs']),
+                link=link, group_first=bool(group_first), order=list(order))
+
+
+def norm_grp(h):
+    res = []
+    for o in h:
+        o = tuple(o)
+        if o[0] == 'Grp':
+            s = o[1]
+            o = ('Grp', grp_spec(s['x'], s['subs'], s['consumer'], s['link'], s['group_first'], s['order']))
+        res.append(o)
+    return res
+
+
+def grp_table(spec):
+    """name -> definition of every task of the dodo file (uniform fields; the group has `subs`)"""
+    link = spec['link']
+    none = dict(file_dep=[], targets=[], uptodate=[], values=[], result=None, getargs=[], task_dep=[])
+    tb = {'X': dict(none, **spec['x'], targets=[4] if link == 'target' else [])}
+    subs = ['G:' + n for n, _ in spec['subs']]
+    tb['G'] = dict(none, subs=subs, file_dep=[4] if link == 'target' else [], task_dep=['X'] if link == 'task_dep' else [],
+                   uptodate=[('result_dep', 'X')] if link == 'result_dep' else [])
+    for n, d in spec['subs']:
+        tb['G:' + n] = dict(none, **d)
+    tb['C'] = dict(none, **spec['consumer'])
+    return tb
+
+
+def grp_sources(d):
+    """every task an (explicit or implicit) result_dep item of d looks at"""
+    res = [u[1] for u in d['uptodate'] if u[0] == 'result_dep']
+    for p, _ in d['getargs']:
+        if p not in res:
+            res.append(p)
+    return res
+
+
+def grp_providers(tb, d):
+    """the tasks whose saved results the items of d compare: a group source stands for its sub-tasks"""
+    res = []
+    for p in grp_sources(d):
+        res += tb[p]['subs'] if 'subs' in tb.get(p, {}) else [p]
+    return res
+
+
+class PShadow:
+    """GShadow for the group histories: never looks at the DB or at the real uptodate objects"""
+    def __init__(self):
+        self.last_ok = {}
+        self.cur_result = {}
+        self.fresh = True
+
+    def src_result(self, tb, src):
+        d = tb.get(src)
+        if d is not None and 'subs' in d:      # the result of a group = the dict of its SUB-TASKS' results (doc/uptodate.rst)
+            return tuple(sorted((s, self.cur_result.get(s)) for s in d['subs']))
+        return self.cur_result.get(src)
+
+    def item(self, tb, u, sn):
+        k = u[0]
+        if k in ('bool', 'call', 'cmd'):
+            return u[1]
+        if k == 'none':
+            return None
+        if sn is None:
+            return False
+        if k == 'run_once':
+            return ('run_once',) in sn['items']
+        if k == 'config':
+            saved = [x[1] for x in sn['items'] if x[0] == 'config']
+            return bool(saved) and saved[-1] == u[1]
+        if k == 'result_dep':
+            then = sn['results'].get(u[1])
+            return then is not None and then == self.src_result(tb, u[1])
+        raise ValueError(u)
+
+    def items(self, tb, t):
+        d, sn = tb[t], self.last_ok.get(t)
+        return [self.item(tb, u, sn) for u in d['uptodate']] + [self.item(tb, ('result_dep', p), sn) for p in dict.fromkeys(p for p, _ in d['getargs'])]
+
+    def result_changed(self, tb, t):
+        """a result_dep item (explicit, or the implicit one of getargs) of t is false right now"""
+        d, sn = tb[t], self.last_ok.get(t)
+        return any(self.item(tb, ('result_dep', p), sn) is False for p in grp_sources(d))
+
+    def complete(self, w, tb, t):
+        d, sn = tb[t], self.last_ok.get(t)
+        items = self.items(tb, t)
+        fd = set(d['file_dep'])
+        if not all(x is not False for x in items):
+            return False
+        if not (fd or any(x is not None for x in items)):
+            return False
+        if not all(f in w.fsview for f in d['targets']):
+            return False
+        if sn is None:
+            return not fd
+        return (sn['ck'] == w.ck and set(sn['file_dep']) == fd and
+                all(f in w.fsview and c03.Shadow.unmodified(w.ck, sn['view'][f], w.fsview[f]) for f in fd))
+
+    def success(self, w, tb, t):
+        d = tb[t]
+        self.last_ok[t] = dict(ck=w.ck, file_dep=list(d['file_dep']), view={f: w.fsview[f] for f in d['file_dep']},
+                               items=list(d['uptodate']), results={p: self.src_result(tb, p) for p in grp_sources(d)})
+        if d['result'] is not None:
+            self.cur_result[t] = d['result']
+
+    def gone(self, t):
+        self.last_ok.pop(t, None)
+        self.cur_result.pop(t, None)
+
+
+def never_uptodate_p(w, tb, sh, t):
+    d = tb[t]
+    items = list(d['uptodate'])
+    if not d['file_dep'] and all(u[0] == 'none' or u == ('call', None) for u in items) and not d['getargs']:
+        return True
+    if any(u in NEVER_ITEMS for u in items):
+        return True
+    if any('subs' not in tb.get(p, {}) and sh.cur_result.get(p) is None for p in grp_sources(d)):   # a single source without result
+        return True
+    return any(f not in w.fsview for f in d['targets'])
+
+
+def run_grp(ctx, backend, h, out):
+    """executes a group history through DoitMain; returns the ints observed (per run: code of the task as in GRP_CODE, decision
+    as in run_g, then -8); findings of the three oracles are appended to out.c04_violations"""
+    from doit.doit_cmd import DoitMain
+    from doit.cmd_base import ModuleTaskLoader
+    from doit import task as T
+    w = c03.World(ctx, backend, 'p')
+    w.dep.close()
+    sh = PShadow()
+    st = dict(spec=None, tb={}, fails=(), got={})
+    obs = []
+    prev = None
+
+    def mk(name):
+        d = st['tb'][name]
+        acts = []
+        if d['values']:
+            vals = {('u%d' % k): x for k, x in d['values']}
+            acts.append((lambda vals=vals: dict(vals),))
+
+        def final(**kw):
+            st['got'][name] = kw
+            if name in st['fails']:
+                return False
+            return True if d['result'] is None else 'res%d' % d['result']
+        acts.append((final,))
+        res = {'actions': acts, 'file_dep': [w.path(f) for f in sorted(d['file_dep'])], 'targets': [w.path(f) for f in d['targets']],
+               'uptodate': [T.result_dep(u[1]) if u[0] == 'result_dep' else w.make_utd(tuple(u)) for u in d['uptodate']]}
+        if d['getargs']:
+            res['getargs'] = {'a%d' % i: (p, None if k is None else 'u%d' % k) for i, (p, k) in enumerate(d['getargs'])}
+        return res
+
+    def group():
+        spec, d = st['spec'], st['tb']['G']
+        head = {'basename': 'G', 'name': None, 'file_dep': [w.path(f) for f in d['file_dep']], 'task_dep': list(d['task_dep']),
+                'uptodate': [T.result_dep(u[1]) for u in d['uptodate']]}
+        if spec['link'] != 'none' and spec['group_first']:
+            yield head
+        for full in d['subs']:
+            sub = mk(full)
+            sub['name'] = full[2:]
+            yield sub
+        if spec['link'] != 'none' and not spec['group_first']:
+            yield head
+
+    def namespace():
+        cfg = {'dep_file': w.dbpath, 'backend': {'json': 'json', 'dbm': 'dbm', 'sqlite': 'sqlite3'}[backend],
+               'check_file_uptodate': 'md5' if w.ck == 'md5' else 'timestamp',
+               'reporter': GReporter, 'verbosity': 0, 'continue': True}
+        order = st['spec']['order']
+        src = ''.join('def task_G():\n    yield from _group()\n' if n == 'G' else 'def task_%s():\n    return _mk(%r)\n' % (n, n) for n in order)
+        path = os.path.join(ctx.subdir('pdodo'), 'dodo_%s.py' % ''.join(order))
+        if not os.path.exists(path):
+            with open(path, 'w') as fh:
+                fh.write(src)
+        ns = {'_mk': mk, '_group': group}
+        exec(compile(src, path, 'exec'), ns)
+        ns['DOIT_CONFIG'] = cfg
+        return {k: v for k, v in ns.items() if k.startswith('task_') or k == 'DOIT_CONFIG'}
+
+    def doit(args):
+        GReporter.log = []
+        buf = io.StringIO()
+        with contextlib.redirect_stdout(buf), contextlib.redirect_stderr(buf):
+            try:
+                rc = DoitMain(ModuleTaskLoader(namespace())).run(args)
+            except SystemExit:
+                rc = 90
+        return rc, list(GReporter.log), buf.getvalue()
+
+    def viol(what, shape, t, idx):
+        out.c04_violations.append(dict(what=what, shape=shape, case=dict(history=h, backend=backend, task=t, run=idx, family='group')))
+
+    try:
+        for idx, o in enumerate(h):
+            k = o[0]
+            this = None
+            if k in ('Write', 'Touch'):
+                w.apply(o)
+                if w.not_fresh:
+                    sh.fresh = False
+            elif k == 'SetChecker':
+                w.ck = o[1]
+            elif k == 'Grp':
+                st['spec'], st['tb'] = o[1], grp_table(o[1])
+            elif k == 'Forget':
+                if st['spec'] is not None and o[1] in st['tb']:
+                    doit(['forget', o[1]])
+                    for n in (st['tb'][o[1]].get('subs', []) + [o[1]]):       # forget of a group forgets its sub-tasks too
+                        sh.gone(n)
+            elif k == 'Run':
+                tb = st['tb']
+                if st['spec'] is None:
+                    continue
+                sel, plain, par, fails = [n for n in o[1] if n in tb], o[2], o[3], tuple(o[4])
+                st['fails'] = fails
+                args = ['run', '--continue'] + (['-n', '2', '-P', 'thread'] if par else []) + ([] if plain else sel)
+                rc, log, txt = doit(args)
+                if rc not in (0, 1, 2):
+                    obs += [97, rc, -8]
+                    prev = None
+                    continue
+                executed, verdict, changed, had, pairs, pos_ok, pos_status, pos = set(), {}, {}, {}, [], {}, {}, 0
+                for ev, t in log:
+                    pos += 1
+                    if t is None or t not in tb:
+                        continue
+                    if ev == 'status':
+                        verdict.setdefault(t, sh.fresh and sh.complete(w, tb, t))
+                        changed.setdefault(t, sh.fresh and sh.result_changed(tb, t))
+                        had.setdefault(t, t in sh.last_ok)
+                        pos_status.setdefault(t, pos)
+                    elif ev == 'execute':
+                        executed.add(t)
+                        if verdict.get(t):
+                            viol('runner executed a task although nothing changed since its last successful execution (file deps, targets, uptodate '
+                                 'items and the results of the tasks it takes values from -- for a group: of its sub-tasks -- are as they were)',
+                                 'c04-unchanged-rerun-getargs', t, idx)
+                    elif ev == 'success':
+                        pairs.append((t, 0 if t in executed else 96))
+                        pos_ok[t] = pos
+                        sh.success(w, tb, t)
+                    elif ev == 'failure':
+                        pairs.append((t, 1 if t in executed else 4))
+                        sh.gone(t)
+                    elif ev == 'uptodate':
+                        pairs.append((t, 2))
+                        if changed.get(t):
+                            viol('a task was skipped as up-to-date although the result it saw of a task it takes values from (for a group: the results of '
+                                 'its sub-tasks / the set of sub-tasks) is not the one recorded now', 'c04-group-result-changed-not-rebuilt', t, idx)
+                    elif ev == 'ignore':
+                        pairs.append((t, 3))
+                if par:
+                    pairs.sort(key=lambda tc: GRP_CODE[tc[0]])
+                for t, c in pairs:
+                    obs += [GRP_CODE[t], c]
+                    out.count('grp-decision:%d' % c)
+                obs.append(-8)
+                code = dict(pairs)
+                if code.get('X') == 0 and code.get('C') == 2 and 'G' in grp_sources(tb['C']) and not any(code.get(s) == 0 for s in tb['G']['subs']):
+                    out.count('grp:non-sub-task-dep-reexecuted,consumer-skipped')
+                if code.get('C') == 0 and 'G' in grp_sources(tb['C']) and changed.get('C') and had.get('C'):
+                    out.count('grp:sub-task-result-changed,consumer-rebuilt')
+                if (prev is not None and prev[0] == idx - 1 and tuple(prev[1][1:]) == tuple(o[1:]) and not fails
+                        and prev[2] == 0 and all(c in (0, 2) for _, c in prev[3]) and sh.fresh):
+                    out.count('grp-repeat-judged')
+                    for t in sorted(executed):
+                        if never_uptodate_p(w, tb, sh, t):
+                            out.count('grp-repeat-exec:never-up-to-date')
+                            continue
+                        if t not in dict(prev[3]):       # brought in as a setup-task of a lazily rebuilt consumer: judged by the shadow only
+                            out.count('grp-repeat-exec:not-reached-by-the-first-run')
+                            continue
+                        mine = prev[4].get(t, 0)
+                        provs = grp_providers(tb, tb[t])
+                        if any(prev[4].get(p, 0) > mine for p in provs):
+                            out.count('grp-repeat-exec:provider-ran-after-consumer')
+                            continue
+                        if any(pos_ok.get(p, pos + 1) < pos_status.get(t, 0) for p in provs):
+                            out.count('grp-repeat-exec:provider-ran-again-before-consumer')
+                            continue
+                        viol('a run repeated immediately after a fully successful one executed a task that has a file_dep / uptodate item and can be '
+                             'up-to-date', 'c04-repeat-run-reexecuted', t, idx)
+                    if not (executed - {'G'}):
+                        out.count('grp-repeat:no-op-but-the-group-task')
+                this = (idx, o, rc, pairs, pos_ok)
+            else:
+                raise ValueError(o)
+            prev = this
+    finally:
+        w.finish()
+    return obs
+
+
+def scripted_grp():
+    hs = []
+    X1, X2 = S([0], 1, [(0, 5)]), S([0], 2, [(0, 1)])
+    A, B = S([1], 1, [(0, 1)]), S([2], 2, [(0, 5)])
+    A2 = S([1], 3, [(0, 0)])
+    allr = ('Run', [], True, False, [])
+
+    def sel(*ts):
+        return ('Run', list(ts), False, False, [])
+    consumers = [S([3], utd=[('result_dep', 'G')]), S([], utd=[('result_dep', 'G')]), S([3], getargs=[('G', 0)]), S([3], getargs=[('G', None)]),
+                 S([], utd=[('result_dep', 'G'), ('run_once',)], getargs=[('G', 0)])]
+    i = 0
+    for link in GRP_LINKS:
+        for cons in consumers:
+            ck = ('md5', 'ts')[i % 2]
+            order = (['X', 'G', 'C'], ['G', 'X', 'C'], ['C', 'X', 'G'])[i % 3]
+            i += 1
+            P = [('SetChecker', ck)] + [('Write', f, f) for f in range(5)]
+
+            def sp(x, a, subs=None):
+                return ('Grp', grp_spec(x, subs or [('a', a), ('b', B)], cons, link, i % 2 == 0, order))
+            # run, again (nothing but the group task executes); the file of X is edited and X produces another result: only X re-executes
+            # (the demo of seeded/C04e); again; a sub-task re-executes with another result: the consumer is rebuilt; again; the set of
+            # sub-tasks changes (results as they were): rebuilt; again
+            for runs in (allr, (sel('X', 'C'), sel('C'))[i % 2]):
+                tail = [sp(X2, A2, [('a', A2), ('b', B), ('c', S([], 0, [(0, 0)]))]), runs, runs, sp(X2, A2, [('b', B)]), runs, runs] if runs == allr else []
+                hs.append(P + [sp(X1, A), runs, runs, ('Write', 0, 3), sp(X2, A), runs, runs, ('Write', 1, 4), sp(X2, A2), runs, runs] + tail)
+    # the consumer looks at X too (an item of its own): then it IS rebuilt with X
+    P = [('SetChecker', 'md5')] + [('Write', f, f) for f in range(5)]
+    cons = S([3], utd=[('result_dep', 'G'), ('result_dep', 'X')])
+    hs.append(P + [('Grp', grp_spec(X1, [('a', A), ('b', B)], cons)), allr, allr, ('Write', 0, 3), ('Grp', grp_spec(X2, [('a', A), ('b', B)], cons)), allr, allr])
+    # forget of a sub-task / of the group / of X; a failing sub-task
+    cons = S([3], utd=[('result_dep', 'G')], getargs=[('G', 0)])
+    g = ('Grp', grp_spec(X1, [('a', A), ('b', B)], cons))
+    hs.append(P + [g, allr, allr, ('Forget', 'X'), allr, allr, ('Forget', 'G:a'), allr, allr, ('Forget', 'G'), allr, allr, ('Forget', 'C'), allr, allr,
+                   ('Write', 1, 4), ('Run', [], True, False, ['G:a']), allr, allr])
+    return hs
+
+
+def gen_grp(rng, ck, par, out):
+    def a_sub(i):
+        return S(rng.choice([[1], [2], [1], [2], []]), rng.choice([None, 0, 1, 2, 3, 1, 2, 3]), [(0, rng.choice([0, 1, 5]))] + ([(1, rng.choice([0, 1, None]))] if rng.random() < 0.3 else []),
+                 [rng.choice(ITEM_W)] if rng.random() < 0.15 else [])
+    sp = dict(x=S([0] if rng.random() < 0.9 else [], rng.choice([0, 1, 2, 3]), [(0, rng.choice([0, 1, 5]))]),
+              subs=[(n, a_sub(i)) for i, n in enumerate(SUB_NAMES[:rng.choice([1, 2, 2, 2, 3])])],
+              link=rng.choice(['task_dep'] * 4 + ['target', 'target', 'result_dep', 'result_dep', 'none']), group_first=rng.random() < 0.6,
+              order=rng.sample(['X', 'G', 'C'], 3))
+    kind = rng.choice(['result_dep', 'result_dep', 'getargs', 'getargs', 'getargs-all', 'both'])
+    utd = [rng.choice(ITEM_W)] if rng.random() < 0.25 else []
+    if kind in ('result_dep', 'both'):
+        utd.insert(rng.randrange(len(utd) + 1), ('result_dep', 'G'))
+    if rng.random() < 0.1:
+        utd.append(('result_dep', 'X'))
+    ga = [('G', 0 if rng.random() < 0.92 else 1)] if kind in ('getargs', 'both') else [('G', None)] if kind == 'getargs-all' else []
+    if ga and rng.random() < 0.1:
+        ga.append(('X', 0))
+    sp['consumer'] = S([3] if rng.random() < 0.6 else [], rng.choice([None, 0, 1]), [], utd, ga)
+    content = {f: f for f in range(5)}
+    h = [('SetChecker', ck)] + [('Write', f, f) for f in range(5)]
+
+    def put():
+        h.append(('Grp', grp_spec(sp['x'], sp['subs'], sp['consumer'], sp['link'], sp['group_first'], sp['order'])))
+
+    def write(f):
+        content[f] = rng.choice([c for c in range(5) if c != content[f]])
+        h.append(('Write', f, content[f]))
+
+    def a_run(fail_ok):
+        r = rng.random()
+        if r < 0.4:
+            sel, plain = [], True
+        elif r < 0.55:
+            sel, plain = ['C'], False
+        elif r < 0.75:
+            sel, plain = ['X', 'C'], False
+        else:
+            sel, plain = rng.sample(['X', 'G', 'C', 'G:a', 'G:b'], rng.choice([1, 2, 2, 3])), False
+        fails = [rng.choice(['X', 'G:a', 'G:b', 'C'])] if (fail_ok and rng.random() < 0.06) else []
+        out.count('grp-run:%s%s%s' % ('plain' if plain else 'consumer-only' if sel == ['C'] else 'X-then-consumer' if sel == ['X', 'C'] else 'subset',
+                                      ':threads' if par else '', ':failing' if fails else ''))
+        return ('Run', sel, plain, par, fails)
+
+    def repeat(r):
+        h.append(r)
+        if not r[4] and rng.random() < 0.7:
+            h.append(r)
+
+    put()
+    repeat(a_run(True))
+    for _ in range(rng.choice([2, 2, 3, 4])):
+        r = rng.random()
+        if r < 0.34:            # the non-sub-task dependency of the group re-executes with another result
+            kind = 'x-file+result'
+            for f in sp['x']['file_dep']:
+                write(f)
+            sp['x'] = dict(sp['x'], result=rng.choice([x for x in range(4) if x != sp['x']['result']]), values=[(0, rng.choice([0, 1, 5]))])
+            put()
+        elif r < 0.40:
+            kind = 'x-result-only'
+            sp['x'] = dict(sp['x'], result=rng.choice([None, 0, 1, 2, 3]))
+            put()
+        elif r < 0.58:          # a sub-task re-executes with another result
+            kind = 'sub-file+result'
+            j = rng.randrange(len(sp['subs']))
+            n, d = sp['subs'][j]
+            for f in d['file_dep']:
+                write(f)
+            sp['subs'] = sp['subs'][:j] + [(n, dict(d, result=rng.choice([x for x in range(4) if x != d['result']])))] + sp['subs'][j + 1:]
+            put()
+        elif r < 0.64:
+            kind = 'sub-task-set'
+            names = [n for n, _ in sp['subs']]
+            if len(names) > 1 and rng.random() < 0.5:
+                sp['subs'] = sp['subs'][:-1]
+            elif len(names) < 3:
+                sp['subs'] = sp['subs'] + [(SUB_NAMES[len(names)], a_sub(0))]
+            put()
+        elif r < 0.72:
+            kind = 'write'
+            write(rng.randrange(4))
+        elif r < 0.78:
+            kind = 'touch-or-same-content'
+            f = rng.randrange(4)
+            h.append(('Touch', f) if rng.random() < 0.5 else ('Write', f, content[f]))
+        elif r < 0.86:
+            kind = 'forget'
+            h.append(('Forget', rng.choice(['X', 'X', 'G', 'G:a', 'C'])))
+        elif r < 0.92:
+            kind = 'order-or-link'
+            sp['order'] = rng.sample(['X', 'G', 'C'], 3)
+            if rng.random() < 0.4:
+                sp['link'] = rng.choice(GRP_LINKS)
+            put()
+        else:
+            kind = 'nothing'
+        out.count('grp-edit:' + kind)
+        repeat(a_run(True))
+    last = a_run(False)
+    h += [last, last]
+    return h
+
+
+SUB_NAMES = ('a', 'b', 'c')
+
+
+def explore_grp(ctx, out):
+    rng = ctx.rng
+    hs = [('scripted', h, False) for h in scripted_grp()]
+    n, npar = ctx.n(30, 400), ctx.n(6, 80)
+    for i in range(n):
+        hs.append(('random', gen_grp(rng, ('md5', 'md5', 'ts')[i % 3], False, out), False))
+    for i in range(npar):
+        hs.append(('threads', gen_grp(rng, ('md5', 'ts')[i % 2], True, out), True))
+    for i, (kind, h, par) in enumerate(hs):
+        b = ('json', 'dbm', 'sqlite')[i % 3]
+        try:
+            obs = run_grp(ctx, b, h, out)
+        except Exception as e:  # noqa
+            obs = [97, len(type(e).__name__)]
+            out.c04_violations.append(dict(what='a group history could not be executed: %s' % type(e).__name__, shape='c04-group-history-crash',
+                                           case=dict(history=h, backend=b, family='group')))
+        out.count('grp:' + kind + ':' + b)
+        out.nontrivial.add('grp:' + json.dumps(h, sort_keys=True, default=str))
+        for o in h:
+            out.count('grp-op:' + o[0])
+        if i == 0:
+            out.samples.append(dict(group_history=h, backend=b, observed=obs))
+    out.evaluations += len(hs)
+    out.extra['group_histories_through_DoitMain'] = dict(scripted=len(scripted_grp()), random_serial=n, random_threads=npar,
+                                                         judged_by='implementation-side oracles only (shadow, repeat, changed)')
+
+
+def shrink_grp(ctx, out):
+    done = set()
+    for v in out.c04_violations:
+        case = v.get('case', {})
+        if v['shape'] in done or case.get('family') != 'group' or 'unshrunk_history' in case or 'run' not in case:
+            continue
+        done.add(v['shape'])
+        try:
+            small = c03.shrink(ctx, case['backend'], case['history'], v['shape'], True, run_grp, 120)
+        except Exception:
+            continue
+        case['unshrunk_history'] = case['history']
+        case['run_in_unshrunk_history'] = case.pop('run', None)
+        case['history'] = small
+
+
+# ------------------------------------------------------------------ the group item itself against Model/GroupRes.v
+# Real result_dep objects (doit/task.py) set up on a real Dependency (json | dbm | sqlite3) and a tasks dict whose source task has a
+# generated task_dep list over the names GI_NAMES (sub-tasks, other tasks, names that only look like sub-tasks: 'Ga', 'G2:a', 'H:G:a'),
+# has_subtask or not.  Two moments: DB0 / task_dep0 -- the item is called and its value saver gives what a successful consumer would
+# save (through the JSON codec, as every backend does); DB1 / task_dep1 after one edit (a result of a sub-task / of another task changes,
+# a name joins or leaves the task_dep, the order changes, nothing) -- the item is called with that saved value.  Compared with
+# `gi_observe` of GroupRes.v: [verdict] ++ what the saver returns at the second moment (0; result | 1; length; name; result .. in the
+# iteration order of the dict; result -1 = None).  `startswith(name + ':')` over the name table is handed to the model as the oracle is_sub.
+GI_NAMES = ['G', 'G:a', 'G:b', 'G:c', 'X', 'Y', 'G2:a', 'Ga', 'G:', 'GG:a', 'H', 'H:a', 'H:G:a']
+PRE_GI = 'From DoitV Require Import Base Status GroupRes.\nOpen Scope Z_scope.\n'
+
+
+def gi_res_coq(r):
+    return 'None' if r is None else 'Some %d%%N' % r
+
+
+def gi_last_coq(last):
+    if last is None:
+        return 'None'
+    if isinstance(last, dict):
+        return 'Some (RGroup [%s])' % '; '.join('(%d%%N, %s)' % (GI_NAMES.index(k), gi_res_coq(None if x is None else int(x[1:]))) for k, x in last.items())
+    return 'Some (RSingle (Some %d%%N))' % int(last[1:])
+
+
+def gi_coq(c):
+    subs = [(i, j) for i, g in enumerate(GI_NAMES) for j, s in enumerate(GI_NAMES) if s.startswith(g + ':')]
+    return 'gi_observe [%s] [%s] (%s) %s %d%%N [%s]%%N' % (
+        '; '.join('(%d%%N, %d%%N)' % p for p in subs),
+        '; '.join('(%d%%N, %s)' % (GI_NAMES.index(n), gi_res_coq(r)) for n, r in c['db1']),
+        gi_last_coq(c['last']), 'true' if c['has_subtask'] else 'false', GI_NAMES.index(c['src']), '; '.join(str(GI_NAMES.index(n)) for n in c['tdeps1']))
+
+
+def gi_enc(x):
+    def r(v):
+        return -1 if v is None else int(v[1:])
+    if isinstance(x, dict):
+        res = [1, len(x)]
+        for k, v in x.items():
+            res += [GI_NAMES.index(k), r(v)]
+        return res
+    return [0, r(x)]
+
+
+def gi_real(ctx, backend, c, n):
+    """the real item at the two moments; fills c['last'] (unless the case fixes it); returns the observation"""
+    from doit import dependency as D
+    from doit.task import Task, result_dep
+    path = os.path.join(ctx.subdir('gi'), 'db%d.%s' % (n % 7, backend))
+    for p in [path] + [path + ext for ext in ('.db', '.dat', '.dir', '.bak')]:
+        if os.path.exists(p):
+            os.remove(p)
+    dep = D.Dependency({'json': D.JsonDB, 'dbm': D.DbmDB, 'sqlite': D.SqliteDB}[backend], path)
+    try:
+        def look(db, tdeps, values):
+            for name in GI_NAMES:
+                dep.remove(name)
+            for name, r in db:
+                dep._set(name, 'deps:', [])
+                if r is not None:
+                    dep._set(name, 'result:', 'r%d' % r)
+            tasks = {c['src']: Task(c['src'], None, task_dep=list(tdeps), has_subtask=c['has_subtask']), 'C': Task('C', None)}
+            item = result_dep(c['src'])
+            item.setup(dep, tasks)
+            verdict = item(tasks['C'], values)
+            saved = {}
+            for saver in tasks['C'].value_savers:
+                saved.update(saver())
+            return bool(verdict), saved['_result:' + c['src']]
+        if c['last'] == 'saved':
+            _, val = look(c['db0'], c['tdeps0'], {})
+            c['last'] = json.loads(json.dumps(val))
+        values = {} if c['last'] is None else {'_result:' + c['src']: c['last']}
+        verdict, val = look(c['db1'], c['tdeps1'], values)
+        return [1 if verdict else 0] + gi_enc(val)
+    finally:
+        dep.close()
+
+
+def gen_gi(rng, out):
+    src = rng.choice(['G'] * 7 + ['H', 'H', 'X'])
+    others = [n for n in GI_NAMES if n != src]
+    tdeps = rng.sample(others, rng.randrange(0, 7))
+    if tdeps and rng.random() < 0.1:
+        tdeps.append(rng.choice(tdeps))
+    db = [(n, rng.choice([None, 0, 1, 2, 3, 4, 5])) for n in GI_NAMES if rng.random() < 0.75]
+    c = dict(src=src, has_subtask=rng.random() < 0.88, tdeps0=list(tdeps), db0=list(db), last='saved')
+    subs = [n for n in tdeps if n.startswith(src + ':')]
+    nons = [n for n in tdeps if not n.startswith(src + ':')]
+    r = rng.random()
+
+    def other_result(n):
+        cur = dict(db).get(n, 'absent')
+        new = rng.choice([x for x in [None, 0, 1, 2, 3, 4, 5, 'absent'] if x != cur])
+        res = [(m, x) for m, x in db if m != n]
+        return res if new == 'absent' else res + [(n, new)]
+    if r < 0.3 and nons:
+        kind = 'result-of-a-non-sub-task-dep'
+        db = other_result(rng.choice(nons))
+    elif r < 0.5 and subs:
+        kind = 'result-of-a-sub-task'
+        db = other_result(rng.choice(subs))
+    elif r < 0.6:
+        kind = 'result-of-any-task'
+        db = other_result(rng.choice(GI_NAMES))
+    elif r < 0.7 and tdeps:
+        kind = 'a-task_dep-leaves'
+        tdeps = [n for n in tdeps if n != rng.choice(tdeps)]
+    elif r < 0.8:
+        kind = 'a-task_dep-joins'
+        tdeps = tdeps + [rng.choice(others)]
+    elif r < 0.88:
+        kind = 'order'
+        tdeps = rng.sample(tdeps, len(tdeps))
+    else:
+        kind = 'nothing'
+    r = rng.random()
+    if r < 0.08:
+        c['last'] = None
+    elif r < 0.12:
+        c['last'] = 'r%d' % rng.randrange(6)
+    elif r < 0.16:
+        c['last'] = {n: rng.choice([None, 'r1', 'r2']) for n in rng.sample(GI_NAMES, rng.randrange(0, 4))}
+    out.count('gi-edit:' + kind)
+    c['tdeps1'], c['db1'] = tdeps, db
+    return c
+
+
+def explore_gi(ctx, out):
+    rng = ctx.rng
+    cases = []
+    n = ctx.n(300, 2400)
+    for i in range(n):
+        c = gen_gi(rng, out)
+        b = ('json', 'dbm', 'sqlite')[i % 3]
+        try:
+            obs = gi_real(ctx, b, c, i)
+        except Exception as e:  # noqa
+            obs = [97, len(type(e).__name__)]
+            if not isinstance(c['last'], (dict, str, type(None))) or c['last'] == 'saved':
+                c['last'] = None
+        out.count('gi-verdict:%s:%s' % ('group' if c['has_subtask'] else 'single', obs[0]))
+        cases.append(dict(model=gi_coq(c), expected=obs, desc=c, backend=b))
+        out.nontrivial.add('gi:' + json.dumps(c, sort_keys=True))
+    bad = common.compare_with_model(ctx, PRE_GI, cases, tag='c04gi')
+    for i, m in bad:
+        out.mismatches.append(dict(case=cases[i]['model'], input=cases[i]['desc'], backend=cases[i]['backend'], impl=cases[i]['expected'], model=m))
+    out.evaluations += len(cases)
+    out.extra['group_item_cases_against_GroupRes'] = n
+    if cases:
+        out.samples.append(dict(group_item=cases[0]['model'], observed=cases[0]['expected']))
 
 
 # ================================================================== family `calcdep` (model: coq/Model/CalcDep.v)
@@ -1182,14 +1865,26 @@ RULE_G = (' ++ family getargs (harness/c04.py, model Getargs.v): run-level histo
           'each distinct history counts as non-trivial')
 
 
+RULE_GRP = (' ++ sub-family group of getargs (harness/c04.py run_grp; item model GroupRes.v): a consumer with uptodate=[result_dep(G)] and / or getargs '
+            'from G (one key / the whole dict of every sub-task) where G is a GROUP (a generator yielding sub-tasks and a group-level dict before or '
+            'after them) that depends on a plain task X which is not one of its sub-tasks -- group-level task_dep, file_dep on a target of X, '
+            'group-level result_dep(X), or not at all; histories where only X re-executes with another result (its own file_dep edited), where a '
+            'sub-task does, where the set of sub-tasks changes, forget / failing actions / creator order, runs repeated immediately, serial and '
+            '-n 2 -P thread -- through DoitMain, judged by the oracles; plus the item alone (real result_dep object on a real Dependency at two '
+            'moments) compared with gi_observe of GroupRes.v; each distinct history / item case counts as non-trivial')
+
+
 def run(ctx):
     out = Outcome()
-    out.rule = c03.RULE + RULE_G + RULE_C
+    out.rule = c03.RULE + RULE_G + RULE_GRP + RULE_C
     c03.explore(ctx, out)
     c03.explore_e2e(ctx, out)
     explore_g(ctx, out)
+    explore_grp(ctx, out)
+    explore_gi(ctx, out)
     explore_c(ctx, out)
     shrink_g(ctx, out)
+    shrink_grp(ctx, out)
     shrink_c(ctx, out)
     c03.shrink_findings(ctx, out, c03=False)
     c03_viol = out.violations
@@ -1198,15 +1893,24 @@ def run(ctx):
     out.assumptions = ['FS-fresh (see C03)', 'callables / shell commands in uptodate are oracles',
                        'hypothesis of completeness includes: the snapshot was taken under the configured checker '
                        '(a record written by another checker is deleted by get_status: documented)',
-                       'family getargs: result_dep / getargs on single tasks (no group tasks), acyclic, no implicit task_dep through targets; '
-                       'threaded runs are judged by the oracles only (see known finding c08:getargs-consumer-check-not-ordered-after-source)']
+                       'family getargs: the run-level MODEL (Getargs.v) has result_dep / getargs on single tasks only, acyclic, no implicit task_dep '
+                       'through targets; threaded runs are judged by the oracles only (see known finding c08:getargs-consumer-check-not-ordered-after-source)',
+                       'sub-family group: "the result of group G" is read as the dict of the results of its SUB-TASKS (doc/uptodate.rst: "it will check that '
+                       'the result of all subtasks did not change. And also the existing sub-tasks are the same"); whole runs with a group source are judged by '
+                       'the implementation-side oracles only (no run-level model); the item -- result_dep._result_group / __call__ / value saver -- is modelled '
+                       '(GroupRes.v: result of a group = map over the sub-tasks among its task_dep) with `startswith(group + ":")` as the oracle is_sub']
     out.assumptions.append('family calcdep: calc_dep providers return file_dep / task_dep / uptodate (bool or None items) only -- no calc_dep of calc_dep '
                            'values, no result_dep items, no calculated file that is a target of another task (implicit task_dep), single tasks, acyclic; '
                            'threaded runs are judged by the oracles only')
     out.extra['trusted_base'] = ['harness/c03.py: World, Shadow, encoders (shared with C03)',
-                                 'harness/c04.py: run_g / run_c (translation of run-level histories to doit command lines), GShadow / CShadow, '
-                                 'the repeat oracles and the edit oracle']
-    out.extra['notes'] = ['getargs / result_dep over whole runs is modelled (coq/Model/Getargs.v, theorems C04_getargs_* of Properties/C04.v) AND '
+                                 'harness/c04.py: run_g / run_grp / run_c (translation of run-level histories to doit command lines), GShadow / PShadow / '
+                                 'CShadow, the repeat oracles, the edit oracle and the changed oracle']
+    out.extra['notes'] = ['result_dep / getargs on a GROUP source: theorems C04_group_item_iff (the item is true IFF the sub-tasks are the same and each '
+                          'one holds the result it held), C04_group_second_look (no dependence on the results of the non-sub-task task_dep of the group), '
+                          'C04_group_item_frame (after any operations of History.v that do not write the record of a sub-task the item is still true) over '
+                          'Model/GroupRes.v; whole runs (run_grp) are judged on the implementation side by three oracles (shadow, repeat, changed), not '
+                          'compared with a run-level model',
+                          'getargs / result_dep over whole runs is modelled (coq/Model/Getargs.v, theorems C04_getargs_* of Properties/C04.v) AND '
                           'judged by two implementation-side oracles (shadow on the reporter event order; immediate repeat of a fully successful run)',
                           'calc_dep over whole runs is modelled too (coq/Model/CalcDep.v, a sibling of Getargs.v: the values a provider hands over are '
                           'its in-memory task.values, set at selection time for an up-to-date provider -- runner.py 156; theorems C04_calcdep_* of '
@@ -1227,6 +1931,15 @@ def replay(ctx, payload):
         print(b, run_c(ctx, b, h, out))
         for v in out.c04_violations:
             print('VIOLATION', v['shape'], v['what'], 'task', v['case']['task'], 'run at operation', v['case']['run'])
+        return 1 if out.c04_violations else 0
+    if any(o[0] == 'Grp' for o in h):
+        out = Outcome()
+        out.c04_violations = []
+        h = norm_grp(h)
+        b = case.get('backend', 'json')
+        print(b, run_grp(ctx, b, h, out))
+        for v in out.c04_violations:
+            print('VIOLATION', v['shape'], v['what'], 'task', v['case'].get('task'), 'run at operation', v['case'].get('run'))
         return 1 if out.c04_violations else 0
     if any(o[0] == 'GDef' for o in h):
         out = Outcome()
